@@ -124,6 +124,21 @@ def oracle_c03(ctx):
     t_ = ['a', 'b']
     vals += [{'x': t_, 'y': t_}, [t_, t_], [{'k': t_}, {'k': t_}]]
     g.exotic = False
+    # structural extremes: many entries, long strings, long byte arrays (sizes with every bit of a 16-bit counter and beyond)
+    big = [{'k%05d' % i: i for i in range(5000)}, [None] * 5000, [[]] * 3000, {'s': 'x' * (2 ** 20)}, {'b': bytearray(b'\xce' * (2 ** 16 + 1))},
+           ['\u20ac' * 21846], {'k%05d' % i: [i, str(i)] for i in range(70000 if ctx.thorough else 7000)}, [True, False] * 40000,
+           {'t': {'u': {'v': ['x' * 65535, 'y' * 65536, 'z' * 65537]}}}]
+    for v in big:
+        res.case('big %s %d' % (type(v).__name__, len(v)), tag='structural extremes')
+        k_, b_ = catching(encode.encode_table_value, v)
+        if k_ != 'ok':
+            res.violation('a large but ordinary value is refused', {'fn': 'none', 'args': '()'}, 'encodes', repr(b_)[:200])
+            continue
+        with real.deadline(30):
+            k2_, r_ = catching(decode.embedded_value, b_)
+        if k2_ != 'ok' or r_[0] != len(b_) or not same(norm(v), r_[1]):
+            res.violation('a large but ordinary value does not round-trip (%s of %d entries, %d bytes)' % (type(v).__name__, len(v), len(b_)),
+                          {'fn': 'none', 'args': '()'}, 'round trip', repr(r_)[:200] if k2_ != 'ok' else 'differs')
     for depth in ([8, 32, 64, 100, 150, 200, 250, 300, 330, 360, 400, 430, 460, 480] if ctx.thorough else [8, 64, 150, 250, 330, 400, 460]):
         for kind in ('array', 'table', 'mixed'):
             res.case('depth %d %s' % (depth, kind), tag='nesting depth')
@@ -729,6 +744,25 @@ def oracle_c05(ctx):
             res.violation('decoder disagrees with the reference on a well-formed field value',
                           {'fn': 'c05_value_case', 'args': pyrepr((data, junk))},
                           bad[0] if k == 'ok' else 'decodes', bad[1] if k == 'ok' else repr(bad))
+    # structural extremes of the grammar: thousands of entries (unsorted, duplicate keys), thousands of void items, long
+    # strings and byte arrays, containers whose length needs every byte of the 32-bit length field
+    def tbl(entries):
+        body_ = b''.join(bytes([len(k_)]) + k_ + v_ for k_, v_ in entries)
+        return b'F' + struct.pack('>I', len(body_)) + body_
+    def arr(items):
+        body_ = b''.join(items)
+        return b'A' + struct.pack('>I', len(body_)) + body_
+    bigs = [tbl([(b'k%05d' % (4999 - i), b'b' + bytes([i % 256])) for i in range(5000)]), tbl([(b'dup', b's' + struct.pack('>h', i - 100)) for i in range(3000)]),
+            arr([b'V'] * 5000), arr([b'\x00'] * 3000 + [b'V'] * 3000), b'S' + struct.pack('>I', 2 ** 20) + b'\xe2\x82\xac' * 349525 + b'a',
+            b'S' + struct.pack('>I', 70000) + b'\xff' * 70000, b'x' + struct.pack('>I', 65537) + b'\xce' * 65537,
+            arr([arr([]) for _ in range(4000)]), tbl([(b'', tbl([(b'', b'V')]))] * 2000), arr([b't\x02'] * 66000)]
+    for data in bigs:
+        res.case('big %d bytes %s' % (len(data), data[:12].hex()), tag='structural extremes')
+        with real.deadline(30):
+            k, bad = catching(c05_value_case, data, b'')
+        if k != 'ok' or bad:
+            res.violation('decoder disagrees with the reference on a large well-formed field value (%d bytes, starts %s)' % (len(data), data[:12].hex()),
+                          {'fn': 'none', 'args': '()'}, str(bad[0])[:200] if k == 'ok' else 'decodes', str(bad[1])[:200] if k == 'ok' else repr(bad))
     keys = list(refenc.METHODS)
     for i in range(6000 if ctx.thorough else 1200):
         if i % 4 == 3:
